@@ -22,8 +22,10 @@ SPEC = {
     "build_comp": "reject",
     "props": ["props/C21.v"],
     "corr": ["corr/Reject_corr.v"],
-    "comps": [{"comp": "reject", "n_quick": 2000, "n_thorough": 80000}],
-    "trusted": ["model/Reject.v create_reject and helpers are hand-written mirrors of CreateRejectPacket, ipv4/ipv6CreateReject{ICMP,TCP}Packet, tcpipChecksum, "
+    "comps": [{"comp": "reject", "n_quick": 1000, "n_thorough": 80000},
+              {"comp": "rejcall", "n_quick": 120, "n_thorough": 3000}],
+    "trusted": ["model/Reject.v reject_inside / reject_outside mirror Interface.rejectInside / rejectOutside (inside.go), driven through the real methods on a minimal Interface with a recording tun queue, tunnel cipher and underlay writer (overlay verif_reject.go, component rejcall), packets up to 9000 bytes",
+                "model/Reject.v create_reject and helpers are hand-written mirrors of CreateRejectPacket, ipv4/ipv6CreateReject{ICMP,TCP}Packet, tcpipChecksum, "
                 "ipv4/ipv6PseudoheaderChecksum (tied by correspondence); the extension header walk is model/IpParse.v find_upper (C20)",
                 "gen/Consts_Reject.v: iputil.MaxRejectPacketSize; gen/Consts_IpParse.v: walker limit and walked header set"],
     "assumptions": ["packet bytes are below 256 (bytes_ok)",
